@@ -12,7 +12,7 @@ import (
 func c10Cfg() *DeclCfg {
 	types := []TypeSpec{{K: KString}, {K: KBool}, {K: KBool}, {K: KInt}, {K: KString, W: WSlice}, {K: KBool, W: WSlice}, {K: KFloat64}, {W: WFunc0}, {K: KDuration}}
 	return &DeclCfg{
-		MaxDepth: 2, MaxFan: 2, PCmds: 50, Types: types, OptsMin: 1, OptsMax: 4, SubGroupsMax: 1, NestMax: 1,
+		MaxDepth: 2, MaxFan: 2, PCmds: 50, Types: types, OptsMin: 1, OptsMax: 4, SubGroupsMax: 1, PInline: 20, NestMax: 1,
 		PNamespace: 20, PShortOnly: 15, PLongOnly: 15, PBase: 40,
 		PPos: 70, PosMax: 5, PRest: 50, PExec: 30, PByTag: 50, PSubOptional: 60, PAliases: 20,
 		ParserOpts: []flags.Options{0, flags.PassDoubleDash, flags.PassDoubleDash, flags.HelpFlag | flags.PassDoubleDash, flags.PassAfterNonOption, flags.PassDoubleDash | flags.IgnoreUnknown, flags.PassDoubleDash | flags.PassAfterNonOption, flags.PassDoubleDash | flags.PassAfterNonOption | flags.HelpFlag},
